@@ -290,6 +290,19 @@ def judgeDtLines (kind : String) (exp : List ExpEnt) (lines : List String) : Lis
   go 0 exp real
 
 def dtsOf (obs : List Obs) : List (List String) := obs.filterMap fun | .dt _ ls => some ls | _ => none
+def dtRetsOf (obs : List Obs) : List String := obs.filterMap fun | .dt r _ => some r | _ => none
+
+/-- J7, return value of `dump_trace`: the name of the object whose `heart_beat` is among the OUTER active calls
+    (the last one), 0 when there is none -/
+def expectedDtRet (e : Expect) : String :=
+  match (e.trace.dropLast.filter (fun t => t.fn == "heart_beat")).getLast? with
+  | some t => (t.obj.drop 1).toString
+  | none => "0"
+
+def judgeDtRets : List Expect → List String → List String
+  | e :: es, r :: rs =>
+    (if expectedDtRet e ≠ r then [s!"dt-ret kind={e.kind} expected={expectedDtRet e} got={r}"] else []) ++ judgeDtRets es rs
+  | _, _ => []
 
 def judgeDts : List Expect → List (List String) → List String
   | [], [] => []
@@ -402,6 +415,7 @@ def judgeEv (exps : List Expect) (obs : List Obs) (ces : List ExpectCe := []) : 
       -- J7 only where the log text was captured (one `dt` per reported error)
       (if (dtsOf obs).isEmpty then [] else judgeDts exps (dtsOf obs)) ++
       judgeDtas (dtsOf obs) (obs.filterMap fun | .dta es => some es | _ => none) ++
+      judgeDtRets exps (dtRetsOf obs) ++
       judgeCes ces (obs.filterMap fun | .ce t => some t | _ => none)
 
 end NV.C18
